@@ -475,8 +475,8 @@ def search(ctx):
     # strata (each its own Hypothesis run, so no class can be starved by the generator's biases)
     body = lambda c: check(ctx, c)  # noqa: E731
     core.run_given(ctx, "grid", cases("direct", masked=False, inputs=("wrapped", "wrapped", "wrapped", "unwrapped")), body, ctx.n(250, 1200))
-    core.run_given(ctx, "masked", cases("direct", masked=True), body, ctx.n(650, 3000))
+    core.run_given(ctx, "masked", cases("direct", masked=True), body, ctx.n(580, 3000))
     core.run_given(ctx, "fixedpoint", cases("direct", masked=True, inputs=("unwrapped",)), body, ctx.n(300, 1200))
-    core.run_given(ctx, "bf", cases("bf"), body, ctx.n(300, 1200))
+    core.run_given(ctx, "bf", cases("bf"), body, ctx.n(270, 1200))
     core.run_given(ctx, "seam", seam_cases(), body, ctx.n(260, 1500))
     core.run_given(ctx, "poisson", poisson_cases(), body, ctx.n(100, 400))
